@@ -709,11 +709,20 @@ func (p *Pairing) idealResponse(r *world.Reply) ideal {
 		}
 	}
 	pr := wire.ParseClientResponse(form, r.Out.Status, h, body, tr)
+	// (the letter case of a field name in a BACKEND's trailer frame is not a fault of the stream:
+	// field names are case-insensitive to whoever reads them, only what the transcoder itself
+	// writes is held to the lower-case rule - by C03)
+	var faults []wire.Complaint
+	for _, cp := range pr.Complaints {
+		if cp.Clause != "resp.trailer-frame.key-not-lower-case" {
+			faults = append(faults, cp)
+		}
+	}
 	// (a flat body without declared length that simply ends early is, to any client of that
 	// protocol, a complete shorter body: only what the protocol itself can detect counts)
-	id.wellFormed = len(pr.Complaints) == 0 && pr.OK()
-	if len(pr.Complaints) > 0 {
-		id.why = fmt.Sprint(pr.Complaints)
+	id.wellFormed = len(faults) == 0 && pr.OK()
+	if len(faults) > 0 {
+		id.why = fmt.Sprint(faults)
 	}
 	for _, m := range pr.Msgs {
 		if form == wire.REST && !p.restWholeResponse() {
